@@ -99,6 +99,21 @@ CLAIMED = {
             "Trusted: TLC; the harness's run-length encoder; printf reference restricted to %s %d %x %c %% with "
             "width / '-' / '0' flags. split_args follows phosg's dialect (DESIGN 4.2).",
             "DESIGN.md 3.8"),
+    "C14": ("TLA+ closed model 'chunked source || reader loop' plus sequential definitions for paths, descriptor "
+            "ownership and Poll-as-map (spec/FileIO): TLC checks completeness and termination over every delivery plan; "
+            "recorded executions under link-time interposed read()/pread()/close() and fopencookie streams are validated "
+            "against it",
+            "Model: every source up to 5-6 bytes over {a, newline}, every chunking, for the read-to-end and line-reader "
+            "loops, with termination; the former stop-at-first-short-read loop must fail. Implementation: every plan of "
+            "1..3-byte chunks for sizes 0..6 (thorough 9) on read_all(fd)/read_all(FILE*), random plans around 255 / "
+            "16 KiB / 32 KiB up to 200 KiB, injected errors, line lengths around every multiple of 255 (thorough: all "
+            "0..1100), exact-size families with short and early-ending sources, file round trips incl. shorter over "
+            "longer, directory trees, all paths up to 5-7 symbols, random scoped_fd and Poll histories with every "
+            "close() recorded.",
+            "Trusted: TLC; memcmp in the harness for large buffers; closes of tracked descriptors are recorded rather "
+            "than performed. Real pipes with staggered writers are not used (delivery is scripted instead, which "
+            "covers the same short-read behaviours deterministically).",
+            "DESIGN.md 3.14"),
 }
 
 NOT_YET = "check not built yet in this round (planned: see DESIGN.md section 3)"
